@@ -412,6 +412,12 @@ func init() {
 			bs = append(bs, batches("dictionary", 6, 0, 1800)...)
 			bs = append(bs, batches("big", 1, 0, 1800)...)
 			bs = append(bs, batches("concurrent", 2, 30000, 1800)...)
+			rc := batches("concurrent", 2, 4000, 1800)
+			for i := range rc {
+				rc[i].Name = "race-" + rc[i].Name
+				rc[i].Race = true // every DATA RACE report of the race build is a violation
+			}
+			bs = append(bs, rc...)
 			return bs
 		},
 		Run: c08Run,
